@@ -26,20 +26,22 @@ type depthExceeded struct{ msg string }
 
 // Options selects how a grammar is built.
 type Options struct {
-	NoMemo bool // build every memoization point WITHOUT combinator.Memoize (differential reference of C03)
-	Interp parsley.Interpreter
+	NoMemo  bool // build every memoization point WITHOUT combinator.Memoize (differential reference of C03)
+	Interp  parsley.Interpreter
+	Letters map[byte]byte // optional substitution of terminal bytes (e.g. b -> '\n' to exercise line:column)
 }
 
 // Monitor is the per-build observer state; Reset before each parse.
 type Monitor struct {
-	Calls, Results         int64
-	BudgetCalls, BudgetRes int64
-	active                 map[[2]int]int
-	MaxActive              int
-	InnerRuns              map[[2]int]int // executions of a memoized body per (memo point, pos)
-	OuterCalls             int64
-	InnerCalls             int64
-	Yield                  func()
+	Calls, Results          int64
+	BudgetCalls, BudgetRes  int64
+	active                  map[[2]int]int
+	MaxActive               int
+	InnerRuns               map[[2]int]int // executions of a memoized body per (memo point, pos)
+	OuterCalls              int64
+	InnerCalls              int64
+	Hits, HitsErr, HitsList int64 // requests answered without running the body; ... that returned an error; ... a list of >= 2
+	Yield                   func()
 	// OnReturn observes every wrapped parser's return (e is the grammar node).
 	OnReturn       func(e *gram.Expr, pos parsley.Pos, node parsley.Node, cp data.IntSet, err parsley.Error)
 	OnEnter        func(e *gram.Expr, pos parsley.Pos)
@@ -49,6 +51,7 @@ type Monitor struct {
 // Reset clears the per-parse state.
 func (m *Monitor) Reset() {
 	m.Calls, m.Results, m.OuterCalls, m.InnerCalls = 0, 0, 0, 0
+	m.Hits, m.HitsErr, m.HitsList = 0, 0, 0
 	m.active = map[[2]int]int{}
 	m.InnerRuns = map[[2]int]int{}
 	m.MaxActive = 0
@@ -105,7 +108,11 @@ func Build(g *gram.Grammar, opt Options) *Built {
 		}
 		switch e.K {
 		case gram.T:
-			p = terminal.Rune(rune(e.Ch))
+			ch := e.Ch
+			if m, ok := opt.Letters[ch]; ok {
+				ch = m
+			}
+			p = terminal.Rune(rune(ch))
 		case gram.Eps:
 			p = parser.Empty()
 		case gram.End:
@@ -210,7 +217,18 @@ func (b *Built) outer(p parsley.Parser) parser.Func {
 	m := b.Mon
 	return parser.Func(func(ctx *parsley.Context, l data.IntMap, pos parsley.Pos) (parsley.Node, data.IntSet, parsley.Error) {
 		m.OuterCalls++
-		return p.Parse(ctx, l, pos)
+		before := m.InnerCalls
+		node, cp, err := p.Parse(ctx, l, pos)
+		if m.InnerCalls == before {
+			m.Hits++
+			if err != nil {
+				m.HitsErr++
+			}
+			if listLen(node) >= 2 {
+				m.HitsList++
+			}
+		}
+		return node, cp, err
 	})
 }
 
@@ -354,4 +372,27 @@ func Alternatives(n parsley.Node) []parsley.Node {
 		return []parsley.Node(l)
 	}
 	return []parsley.Node{n}
+}
+
+// Guarded is the classification of a panic that escaped a guarded call.
+type Guarded struct{ Panic, Budget, Depth string }
+
+// Guard runs f (which calls into the library through b's parsers) and sorts an
+// escaping panic into harness sentinels and genuine library panics.
+func (b *Built) Guard(f func()) (g Guarded) {
+	defer func() {
+		if r := recover(); r != nil {
+			switch v := r.(type) {
+			case budgetExceeded:
+				g.Budget = v.what
+			case depthExceeded:
+				g.Depth = v.msg
+			default:
+				g.Panic = fmt.Sprint(r)
+			}
+			b.Mon.active = map[[2]int]int{}
+		}
+	}()
+	f()
+	return
 }
